@@ -155,7 +155,7 @@ SCENARIO_TIMEOUT = 240
 
 
 def scenarios(tier, seed):
-    n = 3 if tier == "quick" else 16
+    n = 6 if tier == "quick" else 16
     out = []
     for i in range(n):
         out.append({"kind": "sweep", "seed": seed * 1000 + i, "ndims": 3 if i % 3 else 2,
